@@ -1082,6 +1082,9 @@ func main() {
 	r.CasesProc("cold-start/mix", 16, ev.Opt{Procs: 16, HangViolation: true}, mixCase)
 	r.CasesProc("cold-start/dense", 4, ev.Opt{Procs: 4, HangViolation: true}, denseCase)
 	// the array->bitmap conversion uses an unsafe cast: one pass under -race (which implies checkptr)
+	// several bitmaps converted up and down by parallel workers under the race detector:
+	// package-level scratch shared between bitmaps is reported whether or not it collides
+	r.CasesProc("dense/race", r.N(16, 200), ev.Opt{Bin: "race", Procs: 2, Workers: 8, AlwaysLog: true}, denseCase)
 	r.CasesProc("threshold/checkptr", r.N(8, 100), ev.Opt{Bin: "race", Procs: 4}, thresholdCase)
 	r.Require("enumerations", 1000)
 	r.Require("bucket_reached_4097", 10)
